@@ -84,6 +84,7 @@ structure Snap where
   cert : Bool := false
   negotiated : Bool := false       -- stream negotiation completed
   secured : Bool := false          -- a TLS session was established on this connection
+  handledNr : UInt32 := 0          -- the inbound XEP-0198 counter
   g : Ghost := {}                  -- offers / confirmations of the attempt so far
   deriving Repr, Inhabited
 
@@ -98,6 +99,7 @@ structure TxRec where
   tlsDisabledW : Bool := false
   legacyW : Bool := false
   notifiedW : Bool := false        -- CONNECT / RAW_CONNECT had been delivered on the attempt when it was written
+  smNum : Option UInt32 := none    -- the XEP-0198 number it was retained under, if it was counted
   deriving Repr, Inhabited
 
 structure QElem where
@@ -192,6 +194,13 @@ inductive PSt
   | fresh | opened | closed
   deriving Repr, DecidableEq, Inhabited
 
+/-- ghost: what happened to the inbound XEP-0198 count, in order -/
+inductive RxEv
+  | stanza (counted : Bool)    -- a stanza was dispatched; `counted` = SM was enabled and it is not an SM element
+  | enabledAccepted            -- `<enabled/>` answering our `<enable/>`: the count starts at 0
+  | smReset                    -- `<failed/>`: the SM record was reset
+  deriving Repr, DecidableEq, Inhabited
+
 structure Conn where
   -- configuration
   jid : Option Bytes := none
@@ -232,6 +241,8 @@ structure Conn where
   /-- ghost: where the parser is in the protocol of `parserEvent` -/
   pst : PSt := .closed
   protoViol : Nat := 0
+  /-- ghost: history of the inbound count (never cleared: the logical SM session outlives connections) -/
+  rxLog : List RxEv := []
   openHandler : OpenH := .stub
   handlers : List Handler := []
   idHandlers : List Handler := []
@@ -350,7 +361,7 @@ def connDisconnect (c : Conn) : Conn :=
 /-- `_send_raw`: append; with SM enabled and no request outstanding, a non-SM element is followed
     by a linked `<r/>` -/
 def curSnap (c : Conn) : Snap :=
-  { mandatory := c.tlsMandatory, tlsDisabled := c.tlsDisabled, authLegacy := c.authLegacy, isClient := c.ctype = .client, cert := c.cert, negotiated := c.negotiated, secured := c.secured, g := c.g }
+  { mandatory := c.tlsMandatory, tlsDisabled := c.tlsDisabled, authLegacy := c.authLegacy, isClient := c.ctype = .client, cert := c.cert, negotiated := c.negotiated, secured := c.secured, handledNr := c.sm.handledNr, g := c.g }
 
 def pushRawWith (c : Conn) (it : Item) (owner0 : Owner) (snap : Snap) : Conn :=
   -- library elements queued before SM is enabled belong to the negotiation: never counted
@@ -849,7 +860,9 @@ def runSys (c : Conn) (h : SysH) (st : XTree) : Conn × Bool :=
           | some ch => scramResponds ch
       if ok then (sendStanza c (.response true) .strophe, true) else (xmppDisconnect c, false)
     else (handleSaslResult c st, false)
-  | .sm => (handleSm c st, false)
+  | .sm =>
+    -- matched through a child only: not the answer, keep waiting
+    if st.ns? ≠ some Gen.nsSm then (c, true) else (handleSm c st, false)
   | .compressResult =>
     if st.name? = some (b "compressed") then
       (connOpenStream { (prepareReset c .openSasl) with compActive := true }, false)
@@ -905,13 +918,15 @@ def fireIdOne (st : XTree) (c : Conn) (uid : Nat) : Conn :=
 
 /-- `handler_fire_stanza` -/
 def fireStanza (c : Conn) (st : XTree) : Conn :=
+  -- enable all added stanza handlers: before the id handlers run, so that one added by an id
+  -- handler does not see this stanza
+  let cE : Conn := { c with handlers := c.handlers.map fun (h : Handler) => { h with enabled := true } }
   let c1 : Conn := match st.attr (b "id") with
     | some id =>
-      let c0 : Conn := { c with idHandlers := c.idHandlers.map fun (h : Handler) => if h.id = some id then { h with enabled := true } else h }
+      let c0 : Conn := { cE with idHandlers := cE.idHandlers.map fun (h : Handler) => if h.id = some id then { h with enabled := true } else h }
       ((c0.idHandlers.filter (·.id = some id)).map (·.uid)).foldl (fireIdOne st) c0
-    | none => c
-  let c2 : Conn := { c1 with handlers := c1.handlers.map fun (h : Handler) => { h with enabled := true } }
-  (c2.handlers.map (·.uid)).foldl (fireOne st) c2
+    | none => cE
+  (c1.handlers.map (·.uid)).foldl (fireOne st) c1
 
 /-- `_conn_sm_handle_stanza` -/
 def smHandleStanza (c : Conn) (st : XTree) : Conn :=
@@ -936,10 +951,27 @@ where
           triggerSmCallback { c with sm := { c.sm with queue := c.sm.queue.dropWhile (fun e => e.1.toNat < h), rSent := false } }
       else triggerSmCallback c
 
+/-- ghost: the pending XEP-0198 handler (installed with `<enable/>` / `<resume/>`) will see this element -/
+def smAnswer (c : Conn) (st : XTree) (name : Bytes) : Bool :=
+  (c.handlers.any fun h => h.fn = .sys .sm) && st.ns? = some Gen.nsSm && st.name? = some name
+
+/-- ghost: markers for the inbound count, decided from what arrives and what was asked for (not from
+    what `handleSm` does): `<enabled/>` answering our `<enable/>`; `<failed/>` with a cause -/
+def rxMarks (c : Conn) (st : XTree) : List RxEv :=
+  if smAnswer c st (b "enabled") && c.sm.enabled then [.enabledAccepted]
+  else if smAnswer c st (b "failed") && (st.childByNs Gen.nsStanzasIetf).isSome then [.smReset]
+  else []
+
+/-- ghost: this dispatched stanza counts for XEP-0198: SM is on (after the handlers ran) and it is
+    not an SM element -/
+def countsInbound (c0 : Conn) (st : XTree) : Bool :=
+  c0.sm.enabled && (match st.ns? with | some ns => ns ≠ Gen.nsSm | none => false)
+
 /-- `_handle_stream_stanza` -/
 def handleStreamStanza (c : Conn) (st : XTree) : Conn :=
   if c.state = .disconnected then c else
-  let c1 := fireStanza c st
+  let c0 := fireStanza c st
+  let c1 := { c0 with rxLog := c0.rxLog ++ rxMarks c st ++ [.stanza (countsInbound c0 st)] }
   if c1.sm.enabled then smHandleStanza c1 st else c1
 
 /-- `_handle_component_auth` + the rest of `auth_handle_component_open` -/
@@ -1045,7 +1077,7 @@ def fireTimed (c : Conn) : Conn :=
 
 /-- bookkeeping for one completely written element -/
 def retire (c : Conn) (e : QElem) : Conn :=
-  let c1 := { c with tx := c.tx ++ [{ item := e.item, owner := e.owner, sec := c.hasTls, snap := e.snap, attemptW := c.g.attempt, mandatoryW := c.tlsMandatory, tlsDisabledW := c.tlsDisabled, legacyW := c.authLegacy, notifiedW := c.g.notifiedConnect }] }
+  let c1 := { c with tx := c.tx ++ [{ item := e.item, owner := e.owner, sec := c.hasTls, snap := e.snap, attemptW := c.g.attempt, mandatoryW := c.tlsMandatory, tlsDisabledW := c.tlsDisabled, legacyW := c.authLegacy, notifiedW := c.g.notifiedConnect, smNum := if !e.owner.smBit && c.sm.enabled then some c.sm.sentNr else none }] }
   if !e.owner.smBit && c1.sm.enabled then
     triggerSmCallback { c1 with sm := { c1.sm with queue := c1.sm.queue ++ [(c1.sm.sentNr, e)], sentNr := c1.sm.sentNr + 1 } }
   else triggerSmCallback c1
@@ -1167,6 +1199,8 @@ def connectClient (c : Conn) : Conn × Int :=
   match c.jid with
   | none => (c, xmppEInvOp)       -- (with a certificate and no jid: xmppAddr count ≠ 1 → EINVOP too)
   | some j =>
+    -- a JID without a usable domain is refused (the domain pins the server certificate)
+    if (Jid.domain j).head? = none ∨ (Jid.domain j).head? = some 46 then (c, xmppEInvOp) else
     let c1 := if c.hasSm then c else { c with hasSm := true, sm := {} }
     connConnect c1 (Jid.domain j) .client
 
